@@ -364,7 +364,8 @@ def histories(draw, kind, precision, tdtypes, large=False):
         k = min(equal_k, left) if style == 'equal' else 1 if style == 'one' else left if style == 'rest' else 16384 if style == 'pow2' else draw(st.integers(1, min(left, 4))) if style == 'small' else draw(st.integers(1, left))
         ops.append(['update', k])
         left -= k
-        if left > 0 and draw(st.integers(0, 11)) == 0:
+        # (only for the kinds whose objects hold plain arrays: copying an object that carries a compiled lookup function recompiles it, seconds per copy)
+        if left > 0 and kind in ('cpa', 'cpa_alt', 'dpa', 'ttest') and draw(st.integers(0, 7)) == 0:
             ops.append(['copy', draw(st.sampled_from(['deepcopy', 'pickle']))])
         c = draw(st.sampled_from(['none', 'none', 'compute', 'compute2', 'compute+compute']))
         if c == 'compute+compute':
